@@ -204,3 +204,19 @@ func d5Extras() []NamedProg {
 	}
 	return out
 }
+
+// D7r: guarded recursion whose consuming prefix is each consuming primitive in
+// turn ("subroutines consume at least one byte before they recurse").
+func d7rPrograms() []*Prog {
+	call := func(n string) *T { return &T{K: CALL, S: n} }
+	sub := func(n string, k ...*T) *T { return &T{K: SUBDEF, S: n, Kids: k} }
+	var out []*Prog
+	for _, x := range atomsD2() {
+		out = append(out, &Prog{Body: []*T{sub("r", x, loop(0, 1, false, call("r")))}})
+		out = append(out, &Prog{Body: []*T{sub("r", x, loop(0, -1, false, call("r")))}})
+		out = append(out, &Prog{Body: []*T{sub("r", x, or(call("r"), lit("b")))}})
+		out = append(out, &Prog{Body: []*T{sub("r", x, loop(0, 1, true, call("r"))), lit("!")}})
+		out = append(out, &Prog{Defs: []*GDef{{Name: "p", Body: []*T{sub("r", x, loop(0, 1, false, call("r")))}}}, Body: []*T{{K: GLOBAL, S: "p"}, loop(0, 1, false, &T{K: GLOBAL, S: "p"})}})
+	}
+	return out
+}
